@@ -167,7 +167,10 @@ def barrier_wait(name, timeout=120.0):
 # ---------------------------------------------------------------- crashing
 
 def crash(how):
-    sys.stdout.flush() if hasattr(sys.stdout, 'flush') else None
+    try:
+        sys.stdout.flush()
+    except Exception:       # closed already (the child's report phase)
+        pass
     if how == 'exit0':
         os._exit(0)
     elif how == 'exit3':
@@ -181,6 +184,12 @@ def crash(how):
         time.sleep(60)
     elif how == 'sysexit':
         raise SystemExit(7)
+    elif how == 'sysexit0':
+        raise SystemExit(0)
+    elif how == 'memerr':
+        raise MemoryError('scripted')
+    elif how == 'kbint':
+        raise KeyboardInterrupt()
     raise WorldError('unknown crash kind %r' % (how,))
 
 
@@ -443,7 +452,8 @@ class World:
         text = tok + ('\n' if w.get('nl', True) else '')
         via = w.get('via', 'text')
         self.log.emit('Write', t=tid, stream=w.get('stream', 'stdout'), via=via,
-                      tok=tok, nl=bool(w.get('nl', True)),
+                      tok=tok if len(tok) <= 200 else tok[:40] + '...(%d)' % len(tok),
+                      nl=bool(w.get('nl', True)),
                       own=stream is self.own_stream.get(w.get('stream', 'stdout'), 0),
                       dc=w.get('stream', 'stdout') in self.tampered)
         if via == 'buffer' and getattr(stream, 'buffer', None) is None:
